@@ -2,6 +2,7 @@
   C15 — additional half tone transposes F0 and nothing else.
 -/
 import Jb.Proofs.Engine
+import Jb.Proofs.Shift
 
 set_option linter.unusedSectionVars false
 
@@ -43,5 +44,19 @@ theorem halftone_isolation (c : Condition K) (h : K) (inp : EngineIn K) (durs : 
 theorem unclamped_shift (m δ : K) (h1 : (Consts.minLf0 : K) ≤ m + δ) (h2 : m + δ ≤ (Consts.maxLf0 : K)) :
     clampS (m + δ) (Consts.minLf0 : K) Consts.maxLf0 = m + δ := by
   unfold clampS; rw [if_neg (not_lt.mpr h1), if_neg (not_lt.mpr h2)]
+
+/-- **The generated trajectory moves by exactly the shift.** Adding `h` to every static mean adds `h` to every
+    frame of the maximum-likelihood trajectory, for windows whose dynamic coefficients sum to zero (delta
+    windows) — because the band matrix ignores the means, the constant sequence solves the difference of the
+    normal equations, and the solution is unique. -/
+theorem trajectory_shift (windows : List (List K)) (obs : List (List (MeanVari K))) (T : Nat)
+    (hstatic : windows.head? = some [1]) (hlen : windows.length = obs.length)
+    (hobs : ∀ o ∈ obs, o.length = T) (hedge : EdgeZero windows obs T)
+    (hnonneg : ∀ o ∈ obs, ∀ mv ∈ o, 0 ≤ mv.vari) (hpos : ∀ mv ∈ obs.headD [], 0 < mv.vari)
+    (hsum : ∀ w ∈ windows.tail, w.sum = 0)
+    (h : K) (m m' : MlpgMatrix K)
+    (hm : calcWuwWum windows obs = some m) (hm' : calcWuwWum windows (shiftStatic obs h) = some m') :
+    m'.solve = m.solve.map (· + h) :=
+  mlpg_shift windows obs T hstatic hlen hobs hedge hnonneg hpos hsum h m m' hm hm'
 
 end Jb.C15
